@@ -27,7 +27,9 @@ def run(tier, seed, replay=None):
         with open(replay) as fh:
             rp = json.load(fh)
         inp = rp["trace"]["input"]
-        if rp["trace"]["kind"] == "uf_hist":
+        if rp["trace"]["kind"] == "uf_hist" and "many" in inp:
+            trs = [run_tasks("c20", "run_uf_many", [inp["many"]])[0]["traces"][inp["index"]]]
+        elif rp["trace"]["kind"] == "uf_hist":
             trs = run_tasks("c20", "run_uf_hist", [inp])
         elif rp["trace"]["kind"] == "fw_hist":
             trs = run_tasks("c20", "run_fw_hist", [inp])
@@ -67,6 +69,11 @@ def run(tier, seed, replay=None):
     fcases = [drv.gen_fw_hist(rng) for _ in range(nh)]
     utr = _fix(run_tasks("c20", "run_uf_hist", ucases, timeout=120), ucases, "uf_hist")
     ftr = _fix(run_tasks("c20", "run_fw_hist", fcases, timeout=120), fcases, "fw_hist")
+    many = [drv.gen_uf_many(rng) for _ in range(nh // 3)]
+    for r in run_tasks("c20", "run_uf_many", many, timeout=120):
+        if not isinstance(r, dict) or "traces" not in r:
+            raise tlc.MachineryError("UnionFind multi-object worker failed: " + str(r)[:300])
+        utr += r["traces"]
     allt = utr + ftr
     vs = ck.validate(DIR, "C20Trace", allt, "random call histories (n<=64 UnionFind, n<=40 FenwickTree)")
     ck.classify(allt, vs, nontrivial=lambda t, v: len(t["events"]) >= 3)
